@@ -877,6 +877,19 @@ def run_pool(world, res, rng, tier, hist):
             on_child = rng.random() < 0.3
             ctx = shared.create_child_context() if on_child else shared
             data = docs[di]
+            if rng.random() < 0.3:
+                # back to back: the same document object is evaluated, changed in place by the host, and evaluated
+                # again with nothing else in between (whatever the first evaluation left behind must not show)
+                t0 = rng.choice(list(stmts)) if rng.random() < 0.5 else t
+                world.run(stmts[t0], data, ctx)
+                how = rng.choice(['append', 'setkey', 'nested'])
+                if how == 'append':
+                    data['a'].append(rng.choice([0, 1, 7]))
+                elif how == 'setkey':
+                    data['d']['a'] = rng.choice([5, [9], {'k': 1}])
+                else:
+                    data['d'].setdefault('n', []).append(len(data['a']))
+                steps.append(('eval-then-host-' + how, t0, di))
             before = Snapshot(data)
             out = world.run(stmts[t], data, ctx)
             res.case(('pool', t, mode, di), nontrivial=False)
